@@ -52,11 +52,12 @@ func validateAllCriteriaAreGain(criteria *model.Criteria) {
 }
 
 func validateAllWeightsAvailable(weights *model.Weights, criteria *model.Criteria) {
-	criteriaNames := criteria.Names()
-	requiredCriteriaCombinations := *PowerSet(*criteriaNames)
-	for _, rcc := range requiredCriteriaCombinations {
-		getWeightForCriteriaUnion(&rcc, weights)
-	}
+	// the combinations are enumerated one by one (in PowerSet's order) instead of building the whole
+	// power set first: for a request declaring e.g. 40 criteria that set has 2^40 elements and the
+	// process runs out of memory long before the first missing weight is reported
+	forEachCombination(*criteria.Names(), func(requiredCombination []string) {
+		getWeightForCriteriaUnion(&requiredCombination, weights)
+	})
 }
 
 const criteriaSeparator = ","
